@@ -234,7 +234,8 @@ func init() {
 			return 2
 		}
 		defer closeTraceOut()
-		for _, nesting := range []int{1, 3} {
+		// nesting 0: the flat sequence hangs directly under the root (a fragment-style stream; top-level comments / PIs)
+		for _, nesting := range []int{0, 1, 3} {
 			cmd := exec.Command(os.Args[0], "flat-child", "-n", fmt.Sprint(a.n), "-sub", fmt.Sprint(nesting))
 			outb, err := cmd.Output()
 			line := map[string]any{"ev": "flat", "n": a.n, "nesting": nesting, "base": 0, "max": 0, "survived": false}
@@ -260,7 +261,12 @@ func init() {
 			case 0:
 				evs = append(evs, Event{K: "elem", Lo: ch("a")}, Event{K: "end"})
 			case 1:
-				evs = append(evs, Event{K: "text", V: ch("t")})
+				if nesting == 0 {
+					// (no character data at the top level) a surplus end event instead: tolerated by the contract
+					evs = append(evs, Event{K: "pi", Lo: ch("t"), V: ch("d")}, Event{K: "end"})
+				} else {
+					evs = append(evs, Event{K: "text", V: ch("t")})
+				}
 			case 2:
 				evs = append(evs, Event{K: "comment", V: ch("c")})
 			default:
